@@ -27,7 +27,7 @@ How the code is read (TRUSTED conventions)
   * F.gumbel_softmax(logits, tau, hard, dim=0) is the model's `gumbel_softmax` per column with the NOISE AS AN EXPLICIT
     PARAMETER: the translator cannot see the noise torch draws inside (`-empty_like(logits).exponential_().log()`); that
     F.gumbel_softmax is softmax((logits + noise) / tau) followed, if hard, by the one-hot of its arg-max is trusted.
-    At most one call per function; the 4th positional argument of F.gumbel_softmax is `eps`, NOT dim: refused.
+    At most one call per path of a function; the 4th positional argument of F.gumbel_softmax is `eps`, NOT dim: refused.
   * F.one_hot(torch.argmax(x, dim=0), num_classes=len(x)) has the class axis LAST: for a 2-D x it is the transposed
     layout; the translator tracks the layout, `.t()` flips it, and a tensor may be stored / returned only in the normal
     layout (a 1-D tensor of the combiner has one layout).  torch.argmax = first maximum (Model/Sampler.v `argmax`).
@@ -156,17 +156,6 @@ class Tr:
             return n.attr
         return None
 
-    def kind_of(self, n, env):
-        """'T' | 'Q' | 'B' | 'OQ' | 'OB' | 'M' | None for a name / attribute"""
-        if isinstance(n, ast.Name) and n.id in env:
-            return env[n.id][0]
-        a = self.self_attr(n)
-        if a in self.attrs:
-            return self.attrs[a][0]
-        if a in NAME_OF:
-            return 'M'
-        return None
-
     def qexpr(self, n, env):
         if isinstance(n, ast.Constant) and type(n.value) is int and n.value >= 0:
             return '%d' % n.value
@@ -288,13 +277,15 @@ class Tr:
             self._normal(lay, 'softmax over dim 0')
             return 'N', '(tsoftmax g %s)' % x
         if fname in [p + '.gumbel_softmax' for p in self.softmax_fns]:
-            a_ = _kw(n, ['logits', 'tau', 'hard', 'dim'], 3)        # a 4th positional argument would be `eps`
+            a_ = _kw(n, ['logits', 'tau', 'hard', 'eps', 'dim'], 5)
+            if 'eps' in a_:
+                raise Reject('gumbel_softmax: a 4th positional argument is `eps`, not the axis (the axis then defaults to -1): ' + _u(n)[:200])
             if 'logits' not in a_ or not self._dim0(a_.get('dim')):
                 raise Reject('gumbel_softmax: the axis is not given as dim=0 (the 4th positional argument is eps): ' + _u(n)[:200])
             if self.noise_used is None:
                 raise Reject('gumbel_softmax in a function that has no noise argument')
             if self.noise_used:
-                raise Reject('second gumbel_softmax call in one function (one noise draw per call is modelled)')
+                raise Reject('second gumbel_softmax call on one path of a function (one noise draw per call is modelled)')
             self.noise_used = True
             lay, x = self.texpr(a_['logits'], env)
             self._normal(lay, 'gumbel_softmax over dim 0')
@@ -439,12 +430,16 @@ class Tr:
                 head, mid, tail = 'if %s then\n' % self.bexpr(s.test, env), '\n%selse\n' % pad, ''
                 envs = (env, env)
                 branches = (s.body, s.orelse)
-            if self._has_return_or_local(s):
-                # early return / local bindings: the statements that follow are copied into both branches
-                return (pad + head + self.block(list(branches[0]) + rest, envs[0], ind + 1, skip) + mid +
-                        self.block(list(branches[1]) + rest, envs[1], ind + 1, skip) + tail)
-            return (pad + 'let self := (' + head + self.block(branches[0], envs[0], ind + 1, skip) + mid +
-                    self.block(branches[1], envs[1], ind + 1, skip) + tail + ') in\n' + self.block(rest, env, ind, skip))
+            dup = self._has_return_or_local(s)
+            # early return / local bindings: the statements that follow are copied into both branches
+            saved = self.noise_used                      # one noise draw per PATH
+            t0 = self.block(list(branches[0]) + (rest if dup else []), envs[0], ind + 1, skip)
+            used0, self.noise_used = self.noise_used, saved
+            t1 = self.block(list(branches[1]) + (rest if dup else []), envs[1], ind + 1, skip)
+            self.noise_used = None if saved is None else bool(used0 or self.noise_used)
+            if dup:
+                return pad + head + t0 + mid + t1 + tail
+            return pad + 'let self := (' + head + t0 + mid + t1 + tail + ') in\n' + self.block(rest, env, ind, skip)
         raise Reject('statement not in the subset: ' + _u(s)[:160])
 
     def local(self, name, value, env, rest, ind, skip):
@@ -785,7 +780,7 @@ def translate_qtz(src):
 def translate_comb(src, supernet_src):
     tree = ast.parse(src)
     cl = _classes(tree, {'SuperNetCombiner': ['nn.Module']})
-    _imports(tree, {'F': 'torch.nn.functional', 'nn': 'torch.nn', 'torch': 'torch'})
+    _imports(tree, {'F': 'torch.nn.functional', 'nn': 'torch.nn', 'torch': 'torch', 'cast': 'typing:cast'})
     ms = _methods(cl['SuperNetCombiner'])
     known = {'__init__', 'set_sn_branch', 'get_cost', 'sample_alpha_sm', 'sample_alpha_gs', 'forward', 'best_layer_index', 'softmax_temperature',
              'softmax_temperature.setter', 'summary', 'train_selection', 'train_selection.setter', 'named_nas_parameters', 'nas_parameters'}
